@@ -418,6 +418,18 @@ func c18Run(c C18Case) []*ev.Violation {
 		if err != nil {
 			return []*ev.Violation{ev.V("C18/codec-encode-error", "DeflateAndBase64: %v", err)}
 		}
+		// a second message is encoded before the first result is used: results must be independent values
+		other := append([]byte("second message "), data...)
+		enc2, err2 := sxml.DeflateAndBase64(other)
+		encCopy := string(enc)
+		if err2 == nil {
+			if dec2, err := sxml.InflateAndDecode(sxml.EncodingDeflate, true, string(enc2)); err != nil || !bytes.Equal(dec2, other) {
+				return []*ev.Violation{ev.V("C18/codec-roundtrip-differs", "second of two encodings does not decode to its input (%v)", err)}
+			}
+		}
+		if string(enc) != encCopy {
+			return []*ev.Violation{ev.V("C18/codec-result-overwritten", "the result of the first encoding changed while a second message was encoded or decoded")}
+		}
 		dec, err := sxml.InflateAndDecode(sxml.EncodingDeflate, true, string(enc))
 		if err != nil {
 			return []*ev.Violation{ev.V("C18/codec-roundtrip-error", "InflateAndDecode of %d encoded bytes (%d original): %v", len(enc), len(data), err)}
